@@ -8,6 +8,7 @@ import (
 	"os"
 	"path/filepath"
 	"strconv"
+	"strings"
 	"testing"
 	"time"
 )
@@ -114,9 +115,31 @@ func ReplayDir() string {
 	return "/verif/replays"
 }
 
+var seenViolations = map[string]bool{}
+
+// skipMinimise: known findings (passed by the driver) and repeats of a
+// violation already minimised by this worker are recorded un-minimised.
+func skipMinimise(prop string, v *Violation) bool {
+	k := v.Class + "\x1f" + v.Key
+	if seenViolations[k] {
+		return true
+	}
+	seenViolations[k] = true
+	for _, kf := range strings.Split(os.Getenv("VERIF_KNOWN"), "\x1e") {
+		if kf == k {
+			return true
+		}
+	}
+	return false
+}
+
 func handleViolation(t *testing.T, prop *Prop, plan *Plan, res *Result) {
 	want := res.Violation
 	minPlan, minRes := plan, res
+	if skipMinimise(prop.ID, want) {
+		res.Counters["unminimised"]++
+		return
+	}
 	if prop.Refine != nil {
 		if rp := prop.Refine(plan, res); rp != nil {
 			if rr := ExecPlan(t, prop, rp); rr.Violation != nil && rr.Violation.Same(want) {
@@ -147,8 +170,9 @@ func handleViolation(t *testing.T, prop *Prop, plan *Plan, res *Result) {
 // variable), while runtime panics still reach the real fd 2 captured by the
 // driver. glog output is never an oracle input.
 func quietSUT() {
-	if os.Getenv("VERIF_SUTLOG") != "" {
+	if lv := os.Getenv("VERIF_SUTLOG"); lv != "" {
 		_ = flag.Set("logtostderr", "true")
+		_ = flag.Set("v", lv)
 		return
 	}
 	_ = flag.Set("logtostderr", "true")
